@@ -257,7 +257,12 @@ func run(c *harness.Ctx, i int) {
 		cats["via-symlink"] = true
 	}
 	cfgFile := filepath.Join(dir, "config.json")
-	dsu.WriteFile(cfgFile, []byte(fmt.Sprintf(`{"store-options": {%q: {"uncompressed": %v}}}`, addr, uncompressed)))
+	// the config entry of the store may also say "skip-verify" (sensible for reading from it, meaningless for `verify`)
+	skipVerifyCfg := op == "verify" && kind == "local-cli" && rng.Intn(3) == 0
+	dsu.WriteFile(cfgFile, []byte(fmt.Sprintf(`{"store-options": {%q: {"uncompressed": %v, "skip-verify": %v}}}`, addr, uncompressed, skipVerifyCfg)))
+	if skipVerifyCfg {
+		cats["skip-verify-in-config"] = true
+	}
 	before := b.list()
 
 	if op == "prune" {
